@@ -166,7 +166,7 @@ RACE_RULE = ("family race: one ring, one worker, a real daemon built with hold p
              "the ordered log of kicks, control starts, replies and handler entries plus the kick counter left; judged by Spec/RaceSpec.v")
 RACE_TB = ["hand model Model/Race.v of event_loop.rs run()/handle_event, vring.rs read_kick and the enable/stop/reset control paths, tied by family race",
            "Spec/RaceSpec.v: my transcription of C12 over schedule logs", "the hold-point hooks (vhost::vhost_user::verif_hooks::hold) park the thread and change nothing else"]
-reg(id="C12", props="Props/C12.v", proof_files=["Proofs/RaceBase.v", "Proofs/RaceProofs.v", "Proofs/CtlRaceProofs.v"], families=[Race()], rule=RACE_RULE, trusted_base=RACE_TB,
+reg(id="C12", props="Props/C12.v", proof_files=["Proofs/RaceBase.v", "Proofs/RaceProofs.v", "Proofs/CtlRaceProofs.v", "Proofs/WkProofs.v"], families=[Race()], rule=RACE_RULE, trusted_base=RACE_TB,
     assumptions=DMN_ASSUME)
 CONC_RULE = ("family conc: 2..3 threads released together, each calling one operation (reply-bearing get_vring_base / get_queue_num / get_features, acknowledged "
              "set_vring_num, unacknowledged set_vring_base; shared_object_add on the Backend proxy; get_protocol_features on the GpuBackend) through clones of one endpoint, "
